@@ -14,12 +14,19 @@ pub mod fetchsim;
 pub mod fetchcheck;
 pub mod c16check;
 pub mod c17check;
+pub mod simdev;
+pub mod hval;
+pub mod hybsim;
+pub mod fmtparse;
+pub mod hyboracle;
+pub mod hybchecks;
 
 use common::{Failure, ReplayFile, Tier, case_from};
 
 /// Run the check of one property; returns the process exit code.
 pub fn dispatch(prop: &str, tier: Tier, seed: u64) -> i32 {
     match prop {
+        "C01" => hybchecks::check_c01(tier, seed),
         "C05" => memchecks::check_c05(tier, seed),
         "C06" => fetchcheck::check_c06(tier, seed),
         "C11" => fetchcheck::check_c11(tier, seed),
@@ -39,6 +46,7 @@ pub fn dispatch(prop: &str, tier: Tier, seed: u64) -> i32 {
 pub fn replay(rf: &ReplayFile) -> anyhow::Result<Option<Failure>> {
     let r = match (rf.property.as_str(), rf.sub.as_str()) {
         ("C05", "capdist") => memchecks::exec_capdist(&case_from(rf)?).failure,
+        ("C01", _) => hybchecks::exec_c01(&case_from(rf)?).failure,
         ("C06", _) => fetchcheck::exec_fetch(fetchcheck::Which::C06, &case_from(rf)?).failure,
         ("C11", _) => fetchcheck::exec_fetch(fetchcheck::Which::C11, &case_from(rf)?).failure,
         ("C17", "memory-collide") => c17check::replay_mem(case_from(rf)?),
